@@ -70,6 +70,7 @@ pub fn eval(c: &Case, pools: bool) -> Result<(Vec<(String, String)>, String), &'
     let mut want: Vec<Joints> = Vec::new();
     let mut classes = [0usize; 3]; // offered, illegal, colliding
     let mut blocked_by: Vec<String> = Vec::new();
+    let mut tool_only = false;
     for k in 0..6 {
         for target in [&from, &to] {
             let mut cand = c.initial;
@@ -84,11 +85,15 @@ pub fn eval(c: &Case, pools: bool) -> Result<(Vec<(String, String)>, String), &'
             }
             if robot.collides(&cand) {
                 classes[2] += 1;
-                let det = {
+                let det: Vec<(usize, usize)> = {
                     let mut all = cell.clone();
                     all.safety.mode = 1;
                     all.robot().collision_details(&cand)
                 };
+                // is this candidate blocked *only* by the tool (or a moved link) meeting a link before the moved joint?
+                if !det.is_empty() && det.iter().all(|&(a, b)| a < k && b == rs_opw_kinematics::kinematic_traits::J_TOOL) {
+                    tool_only = true;
+                }
                 blocked_by.push(format!("J{}:{:?}", k + 1, det));
                 continue;
             }
@@ -123,7 +128,7 @@ pub fn eval(c: &Case, pools: bool) -> Result<(Vec<(String, String)>, String), &'
             }
         }
     }
-    Ok((fails, format!("offered{}:illegal{}:colliding{}", classes[0], classes[1], classes[2].min(6))))
+    Ok((fails, format!("offered{}:illegal{}:colliding{}{}", classes[0], classes[1], classes[2].min(6), if tool_only { ":tool-vs-unmoved-link-only" } else { "" })))
 }
 
 fn case_json(c: &Case) -> Value {
@@ -139,9 +144,14 @@ pub fn run(ctx: &Ctx) -> Report {
         [0.0, 1.0, 1.2, 0.0, 0.0, 0.0],
         [0.2, 0.0, 0.0, 1.0, 1.2, 0.0],
         [0.0, 1.4, -0.6, 0.4, 0.8, 0.1],
+        // wrist bent so that the tool sticks out sideways / back towards the arm
+        [0.0, 0.4, 0.9, 0.0, 1.5, 0.0],
+        [0.3, 0.9, 1.4, 1.5, 1.2, 0.0],
+        [0.0, 1.1, 1.6, 0.0, -1.3, 0.5],
+        [-0.4, 0.2, 2.0, -1.0, 1.0, 0.0],
     ];
-    let mags = [0.35, 1.3, 2.2, 2.9];
-    let n_delta = if thorough { 64 } else { 16 };
+    let mags = [0.35, 1.3, 2.2, 2.9, 0.8, 1.8];
+    let n_delta = if thorough { 72 } else { 24 };
     let layouts = [0usize, 2, 3, 9, 10, 20];
     let sizes = [5, layouts.len(), 2, 2, initials.len(), n_delta];
     let n = par::product(&sizes);
@@ -150,7 +160,7 @@ pub fn run(ctx: &Ctx) -> Report {
         par::decode(idx, &sizes, &mut ix);
         let d = ix[5];
         // delta vectors: joint i takes magnitude (d + i*(1 + d/4)) mod 4, so each joint sees each magnitude next to each neighbour magnitude
-        let delta: [f64; 6] = std::array::from_fn(|i| mags[(d + i * (1 + d / 4)) % 4]);
+        let delta: [f64; 6] = std::array::from_fn(|i| mags[(d + i * (1 + d / 6)) % 6]);
         let c = Case { presence: ix[0], layout: layouts[ix[1]], safety: ix[2], limits: ix[3], initial: initials[ix[4]], delta };
         match eval(&c, idx % 64 == 0) {
             Err(_) => r.skipped_precondition += 1,
@@ -167,12 +177,15 @@ pub fn run(ctx: &Ctx) -> Report {
             }
         }
     });
-    if !rep.signatures.iter().any(|s| !s.ends_with("colliding0")) && rep.fails.is_empty() {
+    if !rep.signatures.iter().any(|s| !s.contains("colliding0")) && rep.fails.is_empty() {
         rep.machinery_errors.push("no candidate was ever rejected for a collision".into());
+    }
+    if !rep.signatures.iter().any(|s| s.ends_with("tool-vs-unmoved-link-only")) && rep.fails.is_empty() {
+        rep.machinery_errors.push("no candidate blocked only by the tool meeting a link before the moved joint".into());
     }
     rep.traces_validated = rep.transitions;
     rep.rule = "synthetic cell (with/without base and tool, moved base) x environments x safety {touch, 3 cm} x limits {wide, tight} x collision-free initial \
-                postures x from/to = initial -+ delta with per-joint magnitudes {0.35,1.3,2.2,2.9} (moving a joint into free space, self-collision, the base, \
+                postures x from/to = initial -+ delta with per-joint magnitudes {0.35,0.8,1.3,1.8,2.2,2.9} (moving a joint into free space, self-collision, the base, \
                 the environment or out of limits); oracle: the 12 single-joint candidates kept iff arc membership accepts them and the full collides() \
                 of the same robot reports them free, compared as multisets; every 64th case re-run in rayon pools of 1..16 threads; \
                 signature = (offered, illegal, colliding)".into();
